@@ -180,12 +180,8 @@ public:
 
 	void operator=(const HashMap& b)
 	{
-		if (--_rc() == 0) {
-			clear();
-			asl_destroy((AtomicCount*)&a[1]);
-		}
-		a = b.a;
-		++_rc();
+		HashMap c(b); // take the new reference first: b may be this same map or owned by one of its elements
+		swap(a, c.a);
 	}
 
 	~HashMap()
